@@ -23,7 +23,7 @@ RULE = ("seeded sampling over family x function kind x n x bck_options x limit f
         "directed classes (number limits, no grad-requiring parameter, small n without/with bck_options, unused parameter, second order of "
         "integrands linear in a parameter); non-trivial = forward and all requested backward passes returned, every leaf was compared, and "
         "at least one leaf has a reference gradient above 1e-6")
-MIN_NONTRIVIAL = {"quick": 450, "thorough": 6000}
+MIN_NONTRIVIAL = {"quick": 1800, "thorough": 18000}
 ASSUMPTIONS = [
     "float64; finite limits in [-2.5, 3.5] with |xu-xl| in [0.3, 2.5] (both orientations); parameters: rates/widths 0.3..2, offsets N(0,0.7)",
     "comparison tolerance 1e-11*max(1,|reference|) per leaf (largest deviation seen on the repaired tree: see evidence samples; >= 100x margin); "
@@ -34,15 +34,11 @@ ASSUMPTIONS = [
     "a tensor that does not influence the integrand may get None or zeros (both accepted)",
 ]
 BUDGET = {"quick": {"worker_timeout": 900, "case_timeout": 120}, "thorough": {"worker_timeout": 3300, "case_timeout": 300}}
-REQUIRED_COUNTERS = {
-    "quick": {"number_limit_cases": 60, "no_grad_param_cases": 30, "unused_param_cases": 60, "bck_n_cases": 80, "rule_discriminates": 150,
-              "second_order_cases": 150, "second_order_linear_param": 30, "inf_limit_cases": 40, "limit_leaf_compared": 200,
-              "param_leaf_compared": 500, "kind_nnmod": 40, "kind_editmod": 40, "tuple_output_cases": 20, "mixed_second_order_terms": 60},
-    "thorough": {"number_limit_cases": 600, "no_grad_param_cases": 300, "unused_param_cases": 600, "bck_n_cases": 800,
-                 "rule_discriminates": 1500, "second_order_cases": 1500, "second_order_linear_param": 300, "inf_limit_cases": 400,
-                 "limit_leaf_compared": 2000, "param_leaf_compared": 5000, "kind_nnmod": 400, "kind_editmod": 400, "tuple_output_cases": 200,
-                 "mixed_second_order_terms": 600},
-}
+_REQ = {"number_limit_cases": 400, "no_grad_param_cases": 100, "unused_param_cases": 400, "bck_n_cases": 500, "rule_discriminates": 250,
+        "second_order_cases": 350, "second_order_linear_param": 200, "inf_limit_cases": 100, "limit_leaf_compared": 700,
+        "param_leaf_compared": 1500, "kind_func": 250, "kind_nnmod": 250, "kind_editmod": 250, "tuple_output_cases": 80,
+        "mixed_second_order_terms": 300, "mixed_shape_limit_cases": 200}
+REQUIRED_COUNTERS = {"quick": dict(_REQ), "thorough": {k: 10 * v for k, v in _REQ.items()}}
 INF = float("inf")
 RTOL = 1e-11
 
@@ -136,7 +132,7 @@ def _mk(rng, seed, tag, i, **force):
 def cases(seed, tier):
     out = []
     quick = tier == "quick"
-    mult = 1 if quick else 13
+    mult = 4 if quick else 40
     N = 330 * mult
     for i in range(N):
         rng = random.Random(sub_seed(seed, "c13", i))
@@ -370,6 +366,9 @@ def run_case(desc):
         obs.count("bck_n_cases")
     if infinite:
         obs.count("inf_limit_cases")
+    shp = [tuple(v.shape) if isinstance(v, torch.Tensor) else () for v in (xlo, xuo)]
+    if shp[0] != shp[1]:
+        obs.count("mixed_shape_limit_cases")
     if desc["fam"] == "tuple":
         obs.count("tuple_output_cases")
     obs.count("kind_" + desc["kind"].split("_")[0])
